@@ -282,3 +282,9 @@ mod test {
         }
     }
 }
+
+#[cfg(kani)]
+mod verif_kani {
+    use super::*;
+    include!(concat!(env!("LIBTW2_VERIF_HARNESS"), "/snapshot_receiver.rs"));
+}
